@@ -216,7 +216,8 @@ PROPS["C16"] = dict(
                  check="http_sys_code", monitor="http_sys_mon", count_quick=36, count_thorough=1500, nontrivial_bits=3, shrink=False,
                  crash_is_violation=True)],
     rule="http-sys: per case a fresh RUNNING tracker (aquatic_http::run in a child process) with socket_workers x swarm_workers drawn from "
-         "{1,2,3}^2, keep_alive on (3/4) or off, max_scrape_torrents in {1,2,3,100}, max_peers in {1,2,3,50}; 4 TCP connections open at once "
+         "{1,2,3}^2, keep_alive on (3/4) or off, max_scrape_torrents in {1,2,3,100}, max_peers in {1,2,3,50}; a third of the cases behind a reverse proxy (X-Forwarded-For naming a different v4 / v4-mapped / v6 address from "
+         "request to request on the same connection: the peer's address and family are the named ones); 4 TCP connections open at once "
          "(three from 127.0.0.1, one from ::1); 8..21 steps: announces (all events, left 0/1/5000, numwant absent/0/1/2/5/60, 7 ports, 6 "
          "torrents whose first bytes 0..5 spread over the swarm workers), scrapes of 1..9 hashes (known and unknown, repeated, spanning "
          "workers, more than max_scrape_torrents), complete-but-unusable requests and requests larger than the 2048-byte request buffer "
@@ -465,7 +466,9 @@ PROPS["C15"] = dict(
                  check="ws_codec_code", monitor="ws_codec_code", count_quick=160, count_thorough=10000, nontrivial_bits=3, shrink=False)],
     rule="ws-codec: (a) generated InMessages (announces with every event / none, left absent/0/5/usize::MAX, 0..2 offers, answers, scrapes with "
          "no / single / empty-array / several hashes; identifiers all-zero, all-0xff, patterned, and one made of quote, backslash, NUL, control "
-         "and 0x7f/0x80 characters; SDP texts with quotes, backslashes, controls, U+2028/9 and non-BMP characters) are written with the real "
+         "and 0x7f/0x80 characters, bracket-only identifiers; SDP texts with quotes, backslashes, controls, U+2028/9 and non-BMP characters, texts "
+         "ENDING in a backslash or holding 40 brackets; 1 message in 8 built so that an early string ends in a backslash and later strings "
+         "hold more than 32 brackets, 2..5 offers) are written with the real "
          "to_ws_message, the text is parsed to a tree with serde_json and compared with the model's tree, and must parse back from a text AND a "
          "binary frame; (b) hand-built JSON objects (identifier strings of length 0,1,19,20,21,25,40 with characters up to U+0100, null / "
          "missing / wrongly typed / negative fields, unknown fields, malformed offers) parsed by the real from_ws_message vs the model; "
